@@ -2,6 +2,7 @@
 mod adapters;
 mod coracle;
 mod corpus;
+mod detrun;
 mod emitrun;
 mod eoracle;
 mod hirobs;
@@ -24,6 +25,7 @@ fn main() {
         "emit" => emitrun::cmd_emit(&args),
         "emit-canon" => emitrun::cmd_emit_canon(&args),
         "emit-crates" => emitrun::cmd_emit_crates(&args),
+        "det" => detrun::cmd_det(&args),
         "adapters-gen" => adapters::cmd_gen(&args),
         "adapters-impl" => adapters::cmd_impl(&args),
         "adapters-canon" => adapters::cmd_canon(&args),
